@@ -11,7 +11,13 @@ ASSUME = ["Byzantine keys are assumed to have signed everything (ground truth co
 
 def run(tier, seed):
     args = ["-runs", 120, "-steps", 220] if tier == "quick" else ["-runs", 1500, "-steps", 400]
-    return protolib.run_property(PROP, tier, seed, args, RULE, assumptions=ASSUME, scripts=300 if tier == "quick" else 100000)
+    # replicas that commit a long branch at once (a burst of execute events): a replica cut off for a dozen views that catches up
+    k = 10 if tier == "quick" else 200
+    more = [["-heal", "-nobyz", "-suffix", 16, "-only", "long-laggard", "-runs", k, "-steps", 400, "-rulesets", "chainedhotstuff,simplehotstuff"],
+            ["-heal", "-nobyz", "-suffix", 12, "-only", "laggard", "-runs", k, "-steps", 150],
+            # ... and one that was away for some 45 views in which the others kept committing
+            ["-heal", "-nobyz", "-suffix", 16, "-only", "long-laggard", "-lagviews", 45, "-runs", k // 2, "-steps", 1500, "-rulesets", "chainedhotstuff,simplehotstuff"]]
+    return protolib.run_property(PROP, tier, seed, args, RULE, assumptions=ASSUME, scripts=300 if tier == "quick" else 100000, more=more)
 
 
 def replay(path, seed):
